@@ -253,8 +253,15 @@ def fresh_text(name, opts):
         os.path.dirname(os.path.dirname(os.path.dirname(os.path.abspath(__file__)))), REPO_SRC, name, opts)
     out = subprocess.run([sys.executable, "-c", code], capture_output=True, text=True, env=dict(os.environ, PYTHONHASHSEED="0"))
     if out.returncode != 0:
+        if "/py_gql/" in out.stderr and "Traceback" in out.stderr:
+            # the LIBRARY raised while building / serialising a schema of the corpus in a fresh process: that is an answer about the library, not harness trouble
+            raise LibraryRaised(out.stderr.strip().splitlines()[-1][:300])
         raise MachineryDefect("fresh-process serialisation failed: %s" % out.stderr[-400:])
     return json.loads(out.stdout)
+
+
+class LibraryRaised(Exception):
+    pass
 
 
 def consumable_module_state():
@@ -350,7 +357,11 @@ def check(tier, seed):
     # --- C. history independence ------------------------------------------------------------------------------------
     hist_schemas = ["directives", "base", "code"]        # ("code" carries descriptions below the top level, whose layout depends on the indent option)
     for name in hist_schemas:
-        fresh = {json.dumps(o, sort_keys=True): fresh_text(name, o) for o in OPTION_SETS}
+        try:
+            fresh = {json.dumps(o, sort_keys=True): fresh_text(name, o) for o in OPTION_SETS}
+        except LibraryRaised as e:
+            run.violation("to_string:never-raises", "serialising the valid schema %r in a fresh process raised: %s" % (name, e), {"schema": name, "fresh_process": True}, True)
+            continue
         make = dict(schema_sources())[name]
         seqs = list(itertools.product(range(len(OPTION_SETS)), repeat=2)) + [(i, i, i) for i in range(len(OPTION_SETS))]
         if tier == "thorough":
@@ -360,7 +371,11 @@ def check(tier, seed):
             for k, oi in enumerate(seq):
                 opts = OPTION_SETS[oi]
                 n += 1
-                text = s.to_string(**opts)
+                try:
+                    text = s.to_string(**opts)
+                except Exception as e:
+                    run.violation("to_string:never-raises", "serialising raised %r (call %d of a sequence on one schema object)" % (e, k + 1), {"schema": name, "options": opts, "exc": type(e).__name__}, True)
+                    break
                 if text != fresh[json.dumps(opts, sort_keys=True)]:
                     run.violation("to_string:history-independent", "call %d of the sequence %r (options %r) differs from the first call of a fresh process"
                                   % (k + 1, [OPTION_SETS[i] for i in seq], opts),
@@ -379,10 +394,14 @@ def check(tier, seed):
         make = dict(schema_sources())[name]
         for opts in OPTION_SETS[:3]:
             n += 1
-            printed_first = make()
-            before = printed_first.to_string(**opts)
-            after = edit_in_place(printed_first).to_string(**opts)
-            fresh = edit_in_place(make()).to_string(**opts)
+            try:
+                printed_first = make()
+                before = printed_first.to_string(**opts)
+                after = edit_in_place(printed_first).to_string(**opts)
+                fresh = edit_in_place(make()).to_string(**opts)
+            except Exception as e:
+                run.violation("to_string:never-raises", "serialising raised %r (print / edit / print)" % (e,), {"schema": name, "options": opts, "exc": type(e).__name__}, True)
+                continue
             if after != fresh:
                 run.violation("to_string:history-independent", "a schema printed, edited in place and printed again gives another text than the same schema edited "
                               "before its first print (options %r)%s" % (opts, ": the second print still shows the old content" if after == before else ""),
